@@ -332,6 +332,17 @@ def _unit_resolution(names):
         'RETURN = find_bucket("b1", {"a": 1});',
         'RETURN = find_bucket("b", nop());',
         'RETURN = find_bucket("", 7);',
+        # ids that are FRAGMENTS of existing ids (or of any listing of them) are unknown buckets too
+        # (seeded: existence tested with `in` against the joined id text)
+        'RETURN = query_bucket("b");',
+        'RETURN = query_bucket("");',
+        'RETURN = query_bucket("1");',
+        'RETURN = query_bucket("b1, b2");',
+        'RETURN = query_bucket("b1,b2");',
+        'RETURN = query_bucket_eventcount("b");',
+        'RETURN = query_bucket_eventcount("");',
+        'RETURN = query_bucket("B1");',
+        'RETURN = query_bucket("b1 ");',
     ):
         kind, det = run_text(text, ds)
         record(u, text, kind, det, "resolution")
